@@ -106,6 +106,7 @@ def model_code(m, path):
         return 'm.iter_%s().map(|t| %s).collect()' % (r, rust_vec(['t.%d.0' % i for i in range(k)]))
     A('pub fn iter_rel(m: &M, rel: usize) -> Vec<Vec<u32>> { match rel { %s _ => unreachable!() } }' % ' '.join('%d => %s,' % (i, iter_expr(r)) for i, r in enumerate(rl)))
     A('pub fn close(m: &mut M) { m.close() }')
+    A('pub fn close_until(m: &mut M, cond: &dyn Fn(&M) -> bool) -> bool { m.close_until(|x| cond(x)) }')
     A('pub fn check(m: &M) -> Result<(), String> { m.verif_check() }')
     A('}')
     return '\n'.join(L) + '\n'
